@@ -29,10 +29,11 @@ REQUIRED = ["probes_contains", "probes_getitem", "probes_getattr", "probes_get",
             "states_with_duplicates", "states_norm_on", "probes_get_default_kinds"]
 SOFT_DEADLINE = {"quick": 90, "thorough": 1200}
 
-NAMES = ["A", "a", "B", "", "1", "A:1"]      # "A:1" collides with a generated suffix: the only way to reach duplicate session names
+NAMES = ["A", "a", "B", "", "1", "A:1", "_A"]      # "_A": a legal mnemonic that looks like a private attribute; "A:1" collides with a generated suffix: the only way to reach duplicate session names
 OPS = [("append", n) for n in NAMES] + [("insert", "first", n) for n in NAMES] + \
       [("del_idx", "first"), ("del_idx", "last")]
-EXTRA_KEYS = ["A", "a", "B", "b", "", "1", "UNKNOWN", "unknown", "A:1", "a:1", "A:2", "Z", "UNKNOWN:1"]
+EXTRA_KEYS = ["A", "a", "B", "b", "", "1", "UNKNOWN", "unknown", "A:1", "a:1", "A:2", "Z", "UNKNOWN:1", "_A", "_a", "__A", "_Z"]
+RANDOM_NAMES = ["_A", "__x__", "_", "A B", "É", "é", "x-1", "A.1", "Ünit", "DEPT", "very_long_mnemonic_name_0123456789", "2A", "a b"]
 
 
 def grid(tier):
@@ -56,7 +57,8 @@ def random_case(rng, tier):
         return {"kind": "ops", "ops": [list(rng.choice(OPS)) for _ in range(rng.randint(1, 5))], "norm": rng.random() < 0.5, "curves": True}
     L = rng.randint(4, 9)
     allops = OPS + [("insert", "mid", n) for n in NAMES] + [("del_key", "mid"), ("replace", "first", "A"),
-                                                            ("replace", "last", "a"), ("pop", "mid")]
+                                                            ("replace", "last", "a"), ("pop", "mid")] + \
+        [("append", n) for n in RANDOM_NAMES] + [("insert", "first", n) for n in RANDOM_NAMES]
     return {"kind": "ops", "ops": [list(rng.choice(allops)) for _ in range(L)],
             "norm": rng.random() < 0.5}
 
